@@ -19,6 +19,14 @@ CLAIMED = {
             "4.C04"),
     "C14": ("contract proof: result clause of _activate (before ++ on, 0/1/many rule) on both engines; executor/wrapper value clauses",
             "4.C14"),
+    "C05": ("contract proof, relational: every AsyncEngine / async callbacks function is discharged against the SAME contract class as its sync twin; await-discipline obligations; asyncio primitives assumed",
+            "4.C05"),
+    "C10": ("contract proof: state accessors (getter/setters), __init__ model identity, _get_initial_state, for_instance cache invariant, is_active/State.__eq__; frame scan F1",
+            "4.C10"),
+    "C11": ("contract proof: BaseEngine.start two-case post, SyncEngine.start, activate_initial_state, empty-queue no-op clauses of processing_loop, __initial__ branch of _trigger",
+            "4.C11"),
+    "C13": ("contract proof: post of send (the callee is a bound event of that name for EVERY string) over a symbolic attribute table; Event.__call__ queues exactly one item",
+            "4.C13"),
 }
 
 TEXT = ("Every verification condition generated from /repo's current source for the functions this property depends on is "
